@@ -227,29 +227,6 @@ def tree2parameter(
         raise exceptions.UnknownTreeTypeError(datatype=s.data, atom="Parameter")
 
 
-def has_conflicting_definitions(first: atoms.Atom, second: atoms.Atom) -> bool:
-    """Check if two atoms with the same name define different things
-
-    Parameters
-    ----------
-    first : atoms.Atom
-        The first definition
-    second : atoms.Atom
-        The second definition
-
-    Returns
-    -------
-    bool
-        True if the two atoms are of different kinds, or if
-        their values (for assignments the expression trees) differ
-    """
-    if type(first) is not type(second):
-        return True
-    if isinstance(first.value, atoms.Expression) and isinstance(second.value, atoms.Expression):
-        return first.value.tree != second.value.tree
-    return first.value != second.value
-
-
 class TreeToODE(lark.Transformer):
     """Transform a lark tree to an ODE
 
@@ -348,12 +325,15 @@ class TreeToODE(lark.Transformer):
                 continue
 
             for atom in line:  # State, Parameters or Assignment
-                # The atoms are collected in sets below, and two assignments
-                # with different right hand sides can compare equal (the
-                # expression tree is not part of the comparison). Make sure
-                # that conflicting definitions are not silently merged.
+                # A name can only be defined once. Note that this has to be
+                # checked here: the atoms are collected in sets below, where
+                # two assignments with different right hand sides can compare
+                # equal (the expression tree is not part of the comparison)
+                # and would be merged silently, while two identical
+                # definitions that only differ in their comment or component
+                # would both be kept.
                 previous = definitions.setdefault(atom.name, atom)
-                if has_conflicting_definitions(previous, atom):
+                if previous is not atom:
                     raise exceptions.DuplicateSymbolError({atom.name})
 
                 for component in atom.components:
